@@ -61,6 +61,9 @@ def ensure_env():
         env["SQLFLUFF_VERIF"] = "1"
         env.setdefault("PYTHONDONTWRITEBYTECODE", "1")
         env["PYTHONPATH"] = VERIF + os.pathsep + env.get("PYTHONPATH", "")
+        if env.get("VF_REPO_SRC"):
+            # experiments only (seeded-change trials in a scratch worktree); never set by a registered command
+            env["PYTHONPATH"] = env["VF_REPO_SRC"] + os.pathsep + env["PYTHONPATH"]
         env.pop("SQLFLUFF_CONFIG", None)
         os.execve(sys.executable, [sys.executable, "-m", "vf.run"] + sys.argv[1:], env)
     root = scratch_root()
@@ -88,6 +91,10 @@ def assert_repo():
     logging.disable(logging.CRITICAL)
 
     f = os.path.abspath(sqlfluff.__file__)
+    alt = os.environ.get("VF_REPO_SRC")
+    if alt and f.startswith(os.path.abspath(alt)):
+        print(f"NOTE: experiment run against {alt} (VF_REPO_SRC), not /repo")
+        return
     if not f.startswith(REPO_SRC):
         print(f"BROKEN-HARNESS: sqlfluff imported from {f}, not {REPO_SRC}")
         sys.exit(2)
@@ -233,7 +240,11 @@ def match_finding(entry, fail) -> bool:
 
 
 def write_evidence(pid, tier, seed, level, coverage, assumptions, wall, violations):
-    os.makedirs(os.path.join(VERIF, "evidence"), exist_ok=True)
+    evdir = os.path.join(VERIF, "evidence")
+    if os.environ.get("VF_REPO_SRC"):
+        # experiment runs must never overwrite the evidence of the real tree
+        evdir = os.environ.get("VF_EVIDENCE_DIR") or os.path.join("/tmp", "vf-experiment-evidence")
+    os.makedirs(evdir, exist_ok=True)
     ev = {
         "property_id": pid,
         "tier": tier,
@@ -244,7 +255,7 @@ def write_evidence(pid, tier, seed, level, coverage, assumptions, wall, violatio
         "wall_s": round(wall, 2),
         "violations": violations,
     }
-    path = os.path.join(VERIF, "evidence", pid + ".json")
+    path = os.path.join(evdir, pid + ".json")
     tmp = path + ".tmp"
     with open(tmp, "w") as f:
         json.dump(ev, f, indent=1, ensure_ascii=True, default=str)
